@@ -72,7 +72,7 @@ def replay_merge(prop, case, sig, path):
     else:
         nbs = [case[k] for k in ("base", "local", "remote")]
         opts = {"generic": True}
-    extra = {"lines": True} if prop in ("C07",) else {}
+    extra = {"lines": True} if prop in ("C07", "C10") else {}
     if kind == "tool":
         extra["allside"] = True
     plan = [mergefam.plan_item(kind if kind in ("tool", "swapped") else "cli", s, hl, sym=(prop == "C05"), extra=extra)]
